@@ -26,6 +26,8 @@ import (
 	"strconv"
 	"strings"
 	"sync"
+	"sync/atomic"
+	"time"
 
 	"github.com/AdguardTeam/golibs/logutil/slogutil"
 	"github.com/AdguardTeam/golibs/netutil/httputil"
@@ -182,6 +184,8 @@ type reqState struct {
 	body  *ridBody
 	rec   *clientRec
 	w     http.ResponseWriter // rec, or rec behind an http.Hijacker
+	up    []string            // kinds of the foreign writer wrappers before the LogMiddleware, outermost first
+	lvlOn bool                // the middleware's level was enabled when the request was sent
 
 	phase       int // 0 new, 1 started seen, 2 in handler, 3 handler returned, 4 finished seen
 	finGatedFor *derived
@@ -247,6 +251,75 @@ func informational(c int) bool { return c >= 100 && c <= 199 && c != 101 }
 func (c *clientRec) Flush() {
 	c.e.gate("cw")
 	c.calls = append(c.calls, call{Op: "fl"})
+}
+
+// The remaining capabilities http.ResponseController looks for.
+func (c *clientRec) SetReadDeadline(time.Time) error {
+	c.e.gate("cw")
+	c.calls = append(c.calls, call{Op: "srd"})
+	return nil
+}
+
+func (c *clientRec) SetWriteDeadline(time.Time) error {
+	c.e.gate("cw")
+	c.calls = append(c.calls, call{Op: "swd"})
+	return nil
+}
+
+func (c *clientRec) EnableFullDuplex() error {
+	c.e.gate("cw")
+	c.calls = append(c.calls, call{Op: "efd"})
+	return nil
+}
+
+// Foreign middlewares that wrap the ResponseWriter before the LogMiddleware
+// sees it (HttpOps!WrapperKinds).
+var upChains = [][]string{nil, {"unwrap"}, nil, {"flushfwd"}, {"unwrap", "unwrap"}, nil, {"opaque"}, {"unwrap", "flushfwd"}}
+
+// fwdWriter forwards the three methods of http.ResponseWriter and nothing else.
+type fwdWriter struct{ in http.ResponseWriter }
+
+func (f fwdWriter) Header() http.Header              { return f.in.Header() }
+func (f fwdWriter) Write(b []byte) (int, error)      { return f.in.Write(b) }
+func (f fwdWriter) WriteHeader(c int)                { f.in.WriteHeader(c) }
+func (f fwdWriter) innerWriter() http.ResponseWriter { return f.in }
+
+// unwrapWriter: http.ResponseWriter + Unwrap only, the modern idiom.
+type unwrapWriter struct{ fwdWriter }
+
+func (u unwrapWriter) Unwrap() http.ResponseWriter { return u.in }
+
+// flushFwdWriter forwards Flush itself and has no Unwrap.
+type flushFwdWriter struct{ fwdWriter }
+
+func (f flushFwdWriter) Flush() { _ = http.NewResponseController(f.in).Flush() }
+
+// foreignMw is a third-party middleware that wraps the writer.
+type foreignMw string
+
+func (m foreignMw) Wrap(h http.Handler) http.Handler {
+	return http.HandlerFunc(func(w http.ResponseWriter, r *http.Request) {
+		switch m {
+		case "unwrap":
+			w = unwrapWriter{fwdWriter{w}}
+		case "flushfwd":
+			w = flushFwdWriter{fwdWriter{w}}
+		default:
+			w = fwdWriter{w}
+		}
+		h.ServeHTTP(w, r)
+	})
+}
+
+// reaches mirrors LogMw!Reach for a capability: every foreign wrapper on the
+// way lets it through.
+func reaches(up []string, capability string) bool {
+	for _, k := range up {
+		if !(k == "unwrap" || (k == "flushfwd" && capability == "fl")) {
+			return false
+		}
+	}
+	return true
 }
 
 var errHijack = errors.New("harness: hijack refused")
@@ -327,11 +400,13 @@ type env struct {
 	gates  map[string]bool
 	tr     *tracer
 	retain bool
-	off    bool       // base handler disabled
-	mwOff  bool       // the middleware's level (Debug) is below the base handler's minimum (Info): no started / finished records, but the inner handler logs at Warn and its context logger must still carry the request's attributes
-	yield  bool       // free running: yield the processor at every gate to shuffle the requests
-	col    *collector // loopback mode: records are collected, not routed by context
-	forms  []string   // request-target form per slot (default: rotate by request id)
+	off    bool        // base handler disabled
+	mwOff  bool        // the middleware's level (Debug) is below the base handler's minimum (Info): no started / finished records, but the inner handler logs at Warn and its context logger must still carry the request's attributes
+	yield  bool        // free running: yield the processor at every gate to shuffle the requests
+	col    *collector  // loopback mode: records are collected, not routed by context
+	forms  []string    // request-target form per slot (default: rotate by request id)
+	ups    [][]string  // foreign writer wrappers per slot, outermost first (default: rotate by request id)
+	lvlOff atomic.Bool // the logger's level currently filters the middleware's records out
 
 	mu       sync.Mutex // anomalies only
 	unrouted int
@@ -350,21 +425,23 @@ func (e *env) gate(pt string) {
 }
 
 // enabledAt is the base handler's level filter.
-func (e *env) enabledAt(l slog.Level) bool { return !e.off && (!e.mwOff || l >= slog.LevelInfo) }
-
-func (e *env) mwLevel() slog.Level {
-	if e.mwOff {
-		return slog.LevelDebug
-	}
-	return slog.LevelInfo
+// The base handler's minimum level is mutable environment state (a
+// slog.LevelVar in real life): Info while lvlOff is false, Warn while it is
+// true.  The middleware logs at Info, the inner handler probes at Warn.
+func (e *env) enabledAt(l slog.Level) bool {
+	return !e.off && (l >= slog.LevelWarn || (l >= slog.LevelInfo && !e.lvlOff.Load()))
 }
 
-func (e *env) probeLevel() slog.Level {
-	if e.mwOff {
-		return slog.LevelWarn
-	}
-	return slog.LevelInfo
-}
+// setLevel is the environment's SetLevel action: only ever called while no
+// request is in flight.
+func (e *env) setLevel(on bool) { e.lvlOff.Store(!on) }
+
+func (e *env) mwLevel() slog.Level    { return slog.LevelInfo }
+func (e *env) probeLevel() slog.Level { return slog.LevelWarn }
+
+// begin is called by the client right before it sends the request: the
+// logger's level at this moment governs the request's records.
+func (st *reqState) begin(e *env) { st.lvlOn = !e.lvlOff.Load() }
 
 func (e *env) newRequest(slot, rid int, ops []op) (st *reqState, r *http.Request) {
 	form := targetForms[rid%len(targetForms)]
@@ -382,6 +459,12 @@ func (e *env) newRequest(slot, rid int, ops []op) (st *reqState, r *http.Request
 			}
 			break
 		}
+	}
+	switch {
+	case slot >= 1 && slot <= len(e.ups):
+		st.up = e.ups[slot-1]
+	case e.tr == nil && e.col == nil: // (the event log's model has no foreign wrappers)
+		st.up = upChains[rid%len(upChains)]
 	}
 	st.ctx = context.WithValue(context.Background(), ctxKey{}, st)
 	r = httptest.NewRequest(st.spec.method, st.spec.target, st.body).WithContext(st.ctx)
@@ -617,14 +700,36 @@ func (e *env) inner(find func(r *http.Request) *reqState) http.Handler {
 			case "wh":
 				w.WriteHeader(o.C)
 			case "hj":
+				if !reaches(st.up, "hj") {
+					st.hijack(w, 3) // a foreign wrapper hides the Hijacker: not supported, legitimately
+					continue
+				}
 				st.hijack(w, o.C)
 				if o.C == 3 {
 					continue // no Hijacker underneath: nothing reaches the client
 				}
-			case "fl":
+			case "fl", "srd", "swd", "efd":
 				c.C = 0
-				if err := http.NewResponseController(w).Flush(); err != nil {
-					st.problem("Flush through the wrapper failed: %v", err)
+				rc := http.NewResponseController(w)
+				var err error
+				switch o.Op {
+				case "fl":
+					err = rc.Flush()
+				case "srd":
+					err = rc.SetReadDeadline(time.Now().Add(time.Hour))
+				case "swd":
+					err = rc.SetWriteDeadline(time.Now().Add(time.Hour))
+				default:
+					err = rc.EnableFullDuplex()
+				}
+				if !reaches(st.up, o.Op) {
+					if !errors.Is(err, http.ErrNotSupported) {
+						st.problem("%s of request %d behind foreign wrappers %v: got %v, want ErrNotSupported", o.Op, st.spec.rid, st.up, err)
+					}
+					continue
+				}
+				if err != nil {
+					st.problem("%s of request %d through the wrappers %v failed: %v (its client's writer supports it)", o.Op, st.spec.rid, st.up, err)
 				}
 			default:
 				c.C = 0
@@ -749,6 +854,10 @@ func (st *reqState) observe(e *env, ev string, w http.ResponseWriter, r *http.Re
 		if c := recOf(cur); c != nil {
 			cl = c.owner
 			break
+		}
+		if f, ok := cur.(interface{ innerWriter() http.ResponseWriter }); ok {
+			cur = f.innerWriter() // a foreign wrapper (harness knowledge, not Unwrap)
+			continue
 		}
 		wr, ok := cur.(httputil.Wrapper)
 		if !ok {
@@ -885,7 +994,7 @@ func (st *reqState) check(e *env, expectedFin int) (problems []string, policy bo
 		}
 	}
 	want1 := len(st.route)
-	if e.mwOff {
+	if !st.lvlOn {
 		want1 = 0 // the middleware's own level is filtered out by the base handler
 	}
 	if nStarted != want1 || nFinished != want1 {
@@ -897,11 +1006,11 @@ func (st *reqState) check(e *env, expectedFin int) (problems []string, policy bo
 			if l.mw != st.route[i] {
 				add("request %d: layer %d logs through middleware %d, its route is %v", sp.rid, i+1, l.mw, st.route)
 			}
-			if !e.mwOff && (l.started != 1 || l.finished != 1) {
+			if st.lvlOn && (l.started != 1 || l.finished != 1) {
 				add("request %d: layer %d (middleware %d) logged %d started and %d finished records", sp.rid, i+1, l.mw, l.started, l.finished)
 			}
 		}
-	} else if st.runs > 0 && !e.mwOff {
+	} else if st.runs > 0 && st.lvlOn {
 		add("request %d: %d LogMiddleware layers derived a logger for it, its route %v has %d", sp.rid, len(st.layers), st.route, len(st.route))
 	}
 	if nProbe != st.probes {
@@ -919,10 +1028,23 @@ func opsKey(ops []op) string {
 		if i > 0 {
 			b.WriteByte(',')
 		}
-		if o.Op == "wh" {
+		switch o.Op {
+		case "wh":
 			fmt.Fprintf(&b, "WH%d", o.C)
-		} else {
+		case "w":
 			b.WriteString("W")
+		case "hj":
+			fmt.Fprintf(&b, "Hijack[%s]", []string{"?", "ok", "fails", "unsupported"}[min(max(o.C, 0), 3)])
+		case "fl":
+			b.WriteString("Flush")
+		case "srd":
+			b.WriteString("SetReadDeadline")
+		case "swd":
+			b.WriteString("SetWriteDeadline")
+		case "efd":
+			b.WriteString("EnableFullDuplex")
+		default:
+			b.WriteString(o.Op)
 		}
 	}
 	return b.String()
@@ -1057,6 +1179,7 @@ func (e *env) newMw() *httputil.LogMiddleware { return e.newMws(1)[0] }
 // newMws builds n middleware instances, each with its own base handler (so
 // that records tell which instance logged them) and its own pools.
 func (e *env) newMws(n int) []*httputil.LogMiddleware {
+	e.lvlOff.Store(e.mwOff) // the level while the middlewares are constructed
 	out := make([]*httputil.LogMiddleware, n)
 	for i := range out {
 		out[i] = httputil.NewLogMiddleware(slog.New(&rootHandler{e: e, id: i + 1}), e.mwLevel())
@@ -1066,10 +1189,20 @@ func (e *env) newMws(n int) []*httputil.LogMiddleware {
 
 // through wraps h with the instances of route, outermost first.
 func through(mws []*httputil.LogMiddleware, route []int, h http.Handler) http.Handler {
-	for i := len(route) - 1; i >= 0; i-- {
-		h = mws[route[i]-1].Wrap(h)
+	return throughUp(nil, mws, route, h)
+}
+
+// throughUp is httputil.Wrap(h, foreign..., logMiddlewares...): the foreign
+// middlewares of up wrap the writer before the LogMiddlewares see it.
+func throughUp(up []string, mws []*httputil.LogMiddleware, route []int, h http.Handler) http.Handler {
+	list := make([]httputil.Middleware, 0, len(up)+len(route))
+	for _, k := range up {
+		list = append(list, foreignMw(k))
 	}
-	return h
+	for _, m := range route {
+		list = append(list, mws[m-1])
+	}
+	return httputil.Wrap(h, list...)
 }
 
 func (tr *tracer) takeBad() []string {
